@@ -16,7 +16,9 @@
                               derived by QT for the query returned;
      the validity oracle the check evaluates on every generated query - grammar membership (sound and complete recognizer), the RFC 2.4.3
      typing judgement and the integer-range predicate are the Coq definitions of Spec/; float(text) never fails on a grammatical number.
-   What remains unproved: that the lexer cuts EVERY spelling of a derivable token sequence (any blank space, either quote style, every
+     C03_complete_filter_free / C03_exact_filter_free - for queries without filters the headline in full, relative to the spelling relation of
+                              Proofs/LexSpell.v: every spelling of every derivable token sequence compiles to the query derived, and nothing else does;
+   What remains unproved: for queries WITH filters, that the lexer cuts EVERY spelling of a derivable token sequence (any blank space, either quote style, every
    escape form, every number spelling) into that sequence - known for the canonical spelling only; the check renders every generated
    valid query in every lexical form and requires it to compile to the generating structure. *)
 From JP Require Import Base.Json Spec.Abnf Spec.Rfc9535Grammar Model.PyFloat.
@@ -78,6 +80,32 @@ Proof.
   destruct (compile_sound_tokens cfg text q Hc) as (root & t & e & Ht & _ & _ & HQ). exists root, t, e. split; assumption.
 Qed.
 Print Assumptions C03_converse.
+
+(* ---- every lexical variant, for queries without filters ----
+   t: any token sequence the grammar derives for q; z: any text spelling t - blanks wherever the lexical layer allows them (between segments, after
+   "[" and ",", around ":" and before "]"; none after "..", inside ".name" or before the end), dot shorthand or brackets, either quote style around
+   any body with any escape form, any integer spelling of an index.  Then compile("$" z) returns q; and compile accepts exactly such texts. *)
+From JP Require Import Proofs.EvalProofs Proofs.LexSpell Proofs.LexComplete.
+Theorem C03_complete_filter_free : forall cfg q t z a', QT cfg q t -> filter_free q = true -> forallb is_scalar z = true -> RunT a0 t z a' ->
+  m_compile cfg (36%N :: z) = Ok q.
+Proof. exact spelled_compiles_ff. Qed.
+Print Assumptions C03_complete_filter_free.
+
+Theorem C03_exact_filter_free : forall cfg q z, filter_free q = true -> forallb is_scalar z = true ->
+  (m_compile cfg (36%N :: z) = Ok q <-> exists t a', QT cfg q t /\ RunT a0 t z a').
+Proof. exact compile_iff_spelled_ff. Qed.
+Print Assumptions C03_exact_filter_free.
+
+(* the hypotheses are satisfiable, with blanks, both notations, both quote styles, an escape, a slice:  $ .a ..[ "\u0062" , 'c' ,1 : :-2 , * ]  *)
+Example C03_filter_free_nonvacuous :
+  let cfg := {| min_idx := -9007199254740991; max_idx := 9007199254740991; max_depth := 100; reg := []; rx := fun _ _ _ => false |} in
+  let z := [32;46;97;32;46;46;91;32;34;92;117;48;48;54;50;34;32;44;32;39;99;39;32;44;49;32;58;32;58;45;50;32;44;32;42;32;93]%N in
+  exists q t a', m_compile cfg (36%N :: z) = Ok q /\ filter_free q = true /\ QT cfg q t /\ RunT a0 t z a'.
+Proof.
+  intros cfg z. destruct (m_compile cfg (36%N :: z)) as [q| | |] eqn:E; try (vm_compute in E; discriminate E).
+  destruct (compiles_spelled cfg _ q E) as (t & z' & a' & Ez & HQ & HR). inversion Ez; subst z'. exists q, t, a'. split; [reflexivity|]. split; [|split; assumption].
+  vm_compute in E. inversion E. reflexivity.
+Qed.
 
 (* the lexer's regular expressions and ESCAPES in the model are the ones REGENERATED from lex.py on this run *)
 From JP Require Import Proofs.TieLex Gen.LexConst Model.Lex.
